@@ -343,6 +343,8 @@ class FnTerms:
         f = self.term(e.func, nid, env, depth + 1)
         if f[0] == "cfg":
             return ("prim", f[1], None, args, kwargs)
+        if f[0] == "attr" and f[1][0] == "cfg":
+            return ("prim", f[1][1], f[2], args, kwargs)
         if f[0] == "cfgdyn":
             return ("primdyn", f[1], args, kwargs)
         return ("calldyn", f, args, kwargs)
